@@ -7,6 +7,7 @@ CHECKS = {
     'C05': ('vlib.chk_conf', 'C05'),
     'C15': ('vlib.chk_rat', 'C15'),
     'C16': ('vlib.chk_lit', 'C16'),
+    'C29': ('vlib.chk_misc', 'C29'), 'C30': ('vlib.chk_misc', 'C30'),
 }
 
 
